@@ -1380,13 +1380,20 @@ def rule_div(rows, prop):
                     ok = "guarded by " + g["cond"]
             if ok is None:
                 fnshort = r["fn"].split("::(lambda")[0]
-                role = tbl["divisor_roles"].get(fnshort, {}).get(f["c"])
+                roles_fn = tbl["divisor_roles"].get(fnshort, {})
+                role = roles_fn.get(f["c"])
+                erase = lambda e: re.sub(r"%\w+", "%", e)
+                if not role:
+                    can = erase(subst_locals(f["c"], locs))
+                    for rv in roles_fn.values():
+                        if can in rv.get("canonical", []):
+                            role = rv; break
                 if role:
                     sup = role.get("requires_return_guard")
                     if sup:
                         # the validation lives in the enclosing function (the division may sit in one of its lambdas)
                         owners = [q for q in rows if q.get("fn") == fnshort and q.get("cfg")] if r.get("lambda") else [r]
-                        has = any(x["k"] == "return" and "Nothing" in x["a"] and any(g["pol"] == 1 and sup.replace(" ", "") in [p_.replace(" ", "") for p_ in split_top(g["cond"], "||")] for g in expand_guards(x.get("g", []))) for q in owners for x in q["facts"])
+                        has = any(x["k"] == "return" and "Nothing" in x["a"] and any(g["pol"] == 1 and erase(sup.replace(" ", "")) in [erase(p_.replace(" ", "")) for p_ in split_top(g["cond"], "||")] for g in expand_guards(x.get("g", []))) for q in owners for x in q["facts"])
                         if has:
                             ok = "role: " + role["reason"]
                         else:
